@@ -379,4 +379,49 @@ theorem safelink_run {h : Host} (hi : HostInv h) (he : bytesOfNats Gen.C01.safel
             omega
           · rw [negAnswers_dead hdead]; simp; omega
 
+/-! ### several links on one dongle -/
+
+/-- every live link's id is below the counter and maps to the link's own queue -/
+def LinksInv (l : Links) : Prop := ∀ p ∈ l.live, p.2 < l.sh.next ∧ l.sh.table p.2 = some p.1
+
+theorem linksInv_step {l : Links} (h : LinksInv l) (op : ShOp) : LinksInv (l.step op) := by
+  cases op with
+  | «open» q =>
+    simp only [Links.step]
+    split
+    · exact h
+    · intro p hp
+      simp only [List.mem_cons] at hp
+      rcases hp with rfl | hp
+      · simp [Shared.open]
+      · have := h p hp
+        simp only [Shared.open]
+        exact ⟨by omega, by rw [if_neg (by omega)]; exact this.2⟩
+  | close q =>
+    simp only [Links.step]
+    split
+    · rename_i p0 hf
+      have hp0 := List.find?_some hf
+      have hm0 := List.mem_of_find?_eq_some hf
+      intro p hp
+      simp only [List.mem_filter] at hp
+      have := h p hp.1
+      refine ⟨this.1, ?_⟩
+      simp only [Shared.stop]
+      have hne : p.2 ≠ p0.2 := by
+        intro e
+        have h0 := (h p0 hm0).2
+        rw [← e, this.2] at h0
+        have : p.1 = p0.1 := by simpa using h0
+        have hq : p0.1 = q := by simpa using hp0
+        have : p.1 = q := by rw [this, hq]
+        simp [this] at hp
+      rw [if_neg hne]; exact this.2
+    · exact h
+
+theorem linksInv_run {l : Links} (h : LinksInv l) (ops : List ShOp) : LinksInv (l.run ops) := by
+  induction ops generalizing l with
+  | nil => exact h
+  | cons op ops ih => exact ih (linksInv_step h op)
+
 end CfVerif.C01
